@@ -331,3 +331,11 @@ func constantToInt64(v constant.Value) (int64, bool) {
 }
 
 type packagesPackage = packages.Package
+
+func isBoolType(t types.Type) bool {
+	if t == nil {
+		return false
+	}
+	b, ok := t.Underlying().(*types.Basic)
+	return ok && b.Info()&types.IsBoolean != 0
+}
